@@ -178,10 +178,11 @@ impl<'a> Gen<'a> {
                 // foreign functions that bring one argument into the unit of the other, with the polymorphic zero or
                 // two different units of the dimension as arguments
                 self.tags.push("ffi-two-quantities".into());
+                // the divisor is a non-zero literal: `mod(x, 0)` is a NaN, and a NaN made of (polymorphic) zeros is the
+                // known finding C01-zero-nonfinite, which has its own shapes
                 let a = if rng.chance(1, 3) { "0".to_string() } else { self.of_dim(rng, dim, depth - 1) };
-                // (not both: `mod(0, 0)` is a NaN made of two polymorphic zeros — known finding C01-zero-nonfinite)
-                let b = if a != "0" && rng.chance(1, 6) { "0".to_string() } else { self.of_dim(rng, dim, depth - 1) };
-                format!("mod({}, {})", a, b)
+                let n = *rng.pick(&["2", "3", "0.5", "7.25", "1e3"]);
+                format!("mod({}, ({} {}))", a, n, self.unit_of(rng, dim))
             }
             _ => format!("({} {})", self.number(rng), self.unit_of(rng, dim)),
         }
@@ -193,6 +194,7 @@ impl<'a> Gen<'a> {
             let d = (*rng.pick(&self.dims)).clone();
             let a = if rng.chance(1, 3) { "0".to_string() } else { self.of_dim(rng, &d, depth - 1) };
             let b = if a != "0" && rng.chance(1, 6) { "0".to_string() } else { self.of_dim(rng, &d, depth - 1) };
+            // (atan2 of two zeros is 0: no NaN arises here)
             return format!("atan2({}, {})", a, b);
         }
         let d = (*rng.pick(&self.dims)).clone();
@@ -492,7 +494,13 @@ fn judge(ctx: &numbat::Context, units: &Units, out: &mut Out, stmts: &[String], 
         let what = if !o2.problems.is_empty() { o2.problems.join(" | ") } else { o2.error.clone() };
         let input = format!("prog {}", small.join(" ;; "));
         // (a failure of the model stream that was traced to a polymorphic zero meeting a NaN/infinity at run time)
-        let class = if tags.iter().any(|t| t == "zero-nonfinite") && (o2.error.starts_with("runtime-incompatible") || !o2.problems.is_empty()) && classify(&small) == "c01:unsound" { "c01:zero-nonfinite" } else { classify(&small) };
+        // the same defect in the text stream: every value that disagrees with its type is a NaN or an infinity, and the
+        // program contains a literal zero (whose missing unit the non-finite value inherited)
+        let nonfinite_values = !o2.problems.is_empty() && o2.problems.iter().all(|p| {
+            p.split("(q ").nth(1).and_then(|r| u64::from_str_radix(&r[..16.min(r.len())], 16).ok()).map(|b| !f64::from_bits(b).is_finite()).unwrap_or(false)
+        });
+        let has_zero_literal = small.iter().any(|l| l.split(|c: char| !(c.is_ascii_alphanumeric() || c == '.' || c == '_')).any(|t| t == "0" || t == "0.0"));
+        let class = if (tags.iter().any(|t| t == "zero-nonfinite") && (o2.error.starts_with("runtime-incompatible") || !o2.problems.is_empty()) || nonfinite_values && has_zero_literal) && classify(&small) == "c01:unsound" { "c01:zero-nonfinite" } else { classify(&small) };
         out.oracle_fail(&format!("{}:{}", class, input), &input, &what);
     }
     // model stream: the base-unit representation (dimension vector in canonical form) of every raw unit, as
